@@ -1203,6 +1203,11 @@ func (c *Context) quantize(d, v *Decimal, exp int32) Condition {
 			if !d.IsZero() {
 				d.Coeff.SetInt64(0)
 				res = Inexact | Rounded
+				// All digits are discarded and they amount to less than half a
+				// unit, but the directed rounding modes may still round up.
+				if c.Rounding.ShouldAddOne(&d.Coeff, d.Negative, -1) {
+					d.Coeff.SetInt64(1)
+				}
 			}
 		} else {
 			nc := c.WithPrecision(uint32(p))
